@@ -190,7 +190,10 @@ func (r *Run) doPubSub(c *client, sc *plan.Script, idx int, op *plan.Op, rec *pl
 		}
 		want := len(op.Keys)
 		if want == 0 {
-			want = 1
+			// (P)UNSUBSCRIBE without arguments is acknowledged once per subscription (once with a nil
+			// channel if there is none): a PING behind it marks the end of the acknowledgements
+			want = 1 << 30
+			s.c.Write(respArray([]string{"PING", "sync"}))
 		}
 		t := time.NewTimer(5 * time.Second)
 		defer t.Stop()
@@ -205,7 +208,13 @@ func (r *Run) doPubSub(c *client, sc *plan.Script, idx int, op *plan.Op, rec *pl
 					rec.Err = "other:" + a[1]
 					return
 				}
-				if strings.HasSuffix(strings.ToLower(name), a[0]) {
+				if a[0] == "pong" && want == 1<<30 {
+					if got == 0 {
+						rec.Err = "other:no acknowledgement before the marker"
+					}
+					return
+				}
+				if strings.ToLower(name) == a[0] {
 					got++
 					rec.Keys = append(rec.Keys, strings.Join(a, "|"))
 					if last := a[len(a)-1]; strings.HasPrefix(last, "@") {
